@@ -146,6 +146,13 @@ def run(ctx):
     res = tlc.run('MC_TimeOverride', 'MC_TimeOverride_%s.cfg' % tier, workdir=ctx.work, workers=8, coverage=True,
                   stdout_path=os.path.join(ctx.work, 'to.out'))
     ctx.tlc(res, 'TimeOverride clock: UtcNowIsOverride, Normalised, QueriesLeaveClock, AdvanceExact')
+    # the triple arithmetic the model rests on, for unbounded integers (Apalache): normalisation, exactness of advance,
+    # agreement with arithmetic on microseconds, order = numeric order; a clause with the carry forgotten must be refuted
+    base = tlc.apalache('TimeArithInd', 'Init', 'Inv', 0, ctx.work)
+    wrong = tlc.apalache('TimeArithInd', 'Init', 'WrongInv', 0, ctx.work)
+    if base != 'ok' or wrong != 'violation':
+        raise MachineryError('TimeArithInd: Inv %s, WrongInv %s' % (base, wrong))
+    ctx.stage('apalache-time-arithmetic', inv=base, wrong_clause=wrong)
     ops_seen = {r['op'] for r in res.records}
     if ops_seen != {'set', 'clear', 'advance_delta', 'advance_seconds', 'utcnow', 'utcnow_ts', 'utcnow_ts_micro'}:
         raise MachineryError('vacuity: clock operations exercised: %s' % sorted(ops_seen))
